@@ -1,4 +1,6 @@
 // E3 helper — run one case in a forked child (fresh process = pristine library state; crash isolation).
+// timeout_s is a limit on the child's CPU time (RLIMIT_CPU), so that a loaded machine cannot turn a slow child into a
+// false "hang"; a generous wall-clock cap (20 x timeout + 60 s) still catches a child blocked without using CPU.
 //   ChildResult r = run_child([&](int wfd){ ...; child_write(wfd, "text"); return 0; }, 5 /*s*/, 1024 /*MB*/);
 // The child's stdout/stderr are sent to /dev/null unless keep_output; what it writes to wfd comes back in r.data.
 #pragma once
@@ -44,6 +46,7 @@ template<class F> ChildResult run_child(F body, double timeout_s = 10., long mem
     if (!keep_output) { int nul = ::open("/dev/null", O_WRONLY); if (nul >= 0) { dup2(nul, 1); dup2(nul, 2); } }
     if (mem_mb > 0) { struct rlimit rl; rl.rlim_cur = rl.rlim_max = (rlim_t)mem_mb << 20; setrlimit(RLIMIT_AS, &rl); }
     struct rlimit core {0, 0}; setrlimit(RLIMIT_CORE, &core);
+    { struct rlimit cpu; cpu.rlim_cur = (rlim_t)std::ceil(timeout_s); if (cpu.rlim_cur < 1) cpu.rlim_cur = 1; cpu.rlim_max = cpu.rlim_cur + 1; setrlimit(RLIMIT_CPU, &cpu); }
     int rc = 97;
     try { rc = body(pfd[1]); }
     catch (const std::bad_alloc&) { rc = 96; }   // reported as exit:96 = uncaught bad_alloc (the harness decides what it means)
@@ -58,7 +61,7 @@ template<class F> ChildResult run_child(F body, double timeout_s = 10., long mem
   bool timed_out = false;
   for (;;)
   {
-    double left = timeout_s - std::chrono::duration<double>(std::chrono::steady_clock::now() - t0).count();
+    double left = (20. * timeout_s + 60.) - std::chrono::duration<double>(std::chrono::steady_clock::now() - t0).count();
     if (left <= 0) { timed_out = true; break; }
     struct pollfd p {pfd[0], POLLIN, 0};
     int pr = poll(&p, 1, (int)std::min(left * 1000. + 1, 1e6));
@@ -80,6 +83,7 @@ template<class F> ChildResult run_child(F body, double timeout_s = 10., long mem
   }
   kill(pid, SIGKILL); waitpid(pid, &st, 0); r.kind = ChildResult::TIMEOUT; return r;
 reaped:
+  if (WIFSIGNALED(st) && (WTERMSIG(st) == SIGXCPU || (WTERMSIG(st) == SIGKILL && timeout_s > 0))) { r.kind = ChildResult::TIMEOUT; return r; }  // CPU limit reached
   if (WIFSIGNALED(st)) { r.kind = ChildResult::SIGNALED; r.code = WTERMSIG(st); }
   else { r.kind = ChildResult::EXITED; r.code = WEXITSTATUS(st); }
   return r;
